@@ -229,6 +229,8 @@ CorsOf(v, flds) ==
                                /\ p[1] < p[2] /\ InView(v, flds[p[1]]) /\ InView(v, flds[p[2]])
                                /\ (SameHeader(flds[p[1]], flds[p[2]]) \/ PairKept(p[1], p[2]))}})
 
+FirstOff(c) == CHOOSE m \in {c[k].off : k \in 1 .. Len(c)} : \A k \in 1 .. Len(c) : m <= c[k].off
+
 RECURSIVE ApplyCor(_, _, _)
 ApplyCor(b, c, k) == IF k > Len(c) THEN b ELSE ApplyCor(Put(b, c[k].off, c[k].bytes), c, k + 1)
 
@@ -247,7 +249,9 @@ FInit ==
         \E v \in ViewsOf(s, gis) :
          \E c \in CorsOf(v, flds) :
           \E b \in {ApplyCor(base, c, 1)} :
-           \E nn \in 0 .. (Len(b) - v.ga) :
+           \* (an overwrite beyond the first n bytes does not change the call:
+           \* those n are explored with the image itself)
+           \E nn \in (IF c = <<>> THEN 0 ELSE FirstOff(c) - v.ga + 1) .. (Len(b) - v.ga) :
              /\ sh = s /\ vw = v /\ cor = c /\ buf = b /\ n = nn
 
 \* the call size_bytes_checked(view, n)
@@ -266,6 +270,7 @@ NData == SumSeq([li \in 1 .. NL |-> Len(LDef[li].data)])
 KK == 2 * (2 + 2 * NGroups + NData)          \* work per byte of budget, a schema constant
 
 FTypeOK == /\ n \in 0 .. (Len(buf) - vw.ga)
+           /\ cor # <<>> => n > FirstOff(cor) - vw.ga
            /\ Len(cor) <= 2
            /\ Len(buf) < 16777216              \* budgets are exact TLC integers
 
